@@ -14,9 +14,9 @@ QNAME = {"Aggregation": "asyncClient_processAggregationResponseQueue", "Extend":
 
 
 def run(prog, chk):
-    v1_exclusive(prog, chk)
-    hmac_construction(prog, chk)
-    _run(prog, chk)
+    chk.defer(v1_exclusive, prog, chk)
+    chk.defer(hmac_construction, prog, chk)
+    chk.defer(_run, prog, chk)
 
 
 def _run(prog, chk):
